@@ -98,6 +98,15 @@ inductive ErrSpec where
   | syntax (r : Reason)     -- `invalid_syntax(current_token_index(), r)`
 deriving DecidableEq, Repr
 
+/-- the two relabellings of an identifier token (`tokens[i].kind = TokenKind::IdentFunction` / `IdentParameter`) -/
+inductive Relabel where
+  | fn | param
+deriving DecidableEq, Repr
+
+def Relabel.kind : Relabel → Kind
+  | .fn => .IdentFunction
+  | .param => .IdentParameter
+
 /-- one tag per grammar function and per loop of `cst_parser.rs` -/
 inductive Tag where
   | programLoop
@@ -120,7 +129,7 @@ inductive Cmd where
   | node (k : SK) (c : Cmd)          -- `emit_node(k, |this| c)` = `start_node(k); c; finish_node()`
   | nodeAtB (k : SK) (c : Cmd)       -- `start_node_at(lhs_marker, k); c; finish_node()`
   | bump                             -- `self.bump()`
-  | bumpAs (k : Kind)                -- `tokens[token_indices[current]].kind = k; self.bump()`
+  | bumpAs (r : Relabel)             -- `tokens[token_indices[current]].kind = r.kind; self.bump()`
   | err (e : ErrSpec)                -- `self.add_error(…)`
   | call (t : Tag)                   -- call of a grammar function / next iteration of a loop
   | callA (t : Tag) (a : AExpr)      -- … with `min_prec := a`
@@ -230,7 +239,7 @@ def body : Tag → Cmd
   -- `parse_macro_decl`
   | .macroDecl =>
     node .FunctionDecl (seqs [expect .Macro,
-      when_ (check .Ident) (bumpAs .IdentFunction),
+      when_ (check .Ident) (bumpAs .fn),
       when_ (check .ParenBegin) (call .paramList),
       when_ (check .Arrow) (seqs [bump, call .type_]),
       when_ (check .BlockBegin) (call .blockExpr)])
@@ -251,7 +260,7 @@ def body : Tag → Cmd
   -- `parse_function_decl`
   | .functionDecl =>
     node .FunctionDecl (seqs [expect .Function,
-      ite (check .Ident) (bumpAs .IdentFunction) (errorExpected .ident),
+      ite (check .Ident) (bumpAs .fn) (errorExpected .ident),
       ite (check .ParenBegin) (call .paramList) (errorExpected .parenBegin),
       when_ (check .Arrow) (seqs [bump, call .type_]),
       ite (check .BlockBegin) (call .blockExpr) (errorExpected .blockBegin)])
@@ -276,7 +285,7 @@ def body : Tag → Cmd
   | .paramList => node .ParamList (seqs [expect .ParenBegin, call .paramLoop, expect .ParenEnd])
   | .paramLoop =>
     when_ (both (neg (check .ParenEnd)) (neg atEnd)) (seqs [
-      when_ (check .Ident) (seqs [bumpAs .IdentParameter,
+      when_ (check .Ident) (seqs [bumpAs .param,
         when_ (check .Colon) (call .typeAnnotation),
         when_ (check .Assign) (node .ParamDefault (seqs [expect .Assign, callA .exprPrec (.const 1)]))]),
       when_ (check .Comma) (seqs [bump, call .paramLoop])])                       -- `else { break }`
@@ -378,7 +387,7 @@ def body : Tag → Cmd
       unless_ atEnd (ite (check .BlockBegin) (call .blockExpr) (call .expr))])
   | .lambdaParamLoop =>
     when_ (both (neg (check .LambdaArgBeginEnd)) (neg atEnd)) (seqs [
-      ite (check .Ident) (seqs [bumpAs .IdentParameter, when_ (check .Colon) (call .typeAnnotation)]) bump,
+      ite (check .Ident) (seqs [bumpAs .param, when_ (check .Colon) (call .typeAnnotation)]) bump,
       ite (check .Comma) (seqs [bump, call .lambdaParamLoop])
         (ite (neg (check .LambdaArgBeginEnd)) skip (call .lambdaParamLoop))])     -- `break`
   -- `parse_tuple_expr`
@@ -623,7 +632,7 @@ def exec (rec : Tag → St → St) : Cmd → St → St
   | .node k c, s => prim E (exec rec c (prim E s (.startNode k.toNat))) .finishNode
   | .nodeAtB k c, s => prim E (exec rec c (prim E s (.startNodeAt s.rb k.toNat))) .finishNode
   | .bump, s => prim E s .bump
-  | .bumpAs k, s => prim E (relabel E s k) .bump
+  | .bumpAs r, s => prim E (relabel E s r.kind) .bump
   | .err e, s => addErr E s e
   | .call t, s => { rec t s with ra := s.ra, rb := s.rb }
   | .callA t a, s => { rec t { s with ra := evalA E s a } with ra := s.ra, rb := s.rb }
